@@ -42,6 +42,7 @@ class Result:
     blocks: int = 0
     max_depth: int = 0
     uninit_loads: List[Tuple[int, int]] = field(default_factory=list)
+    itxn_groups: List[list] = field(default_factory=list)
 
     def observable(self):
         if self.verdict == "fail":
@@ -138,6 +139,7 @@ class Machine:
         res.steps = self.steps
         res.final_stack = list(self.stack)
         res.trace = self.trace
+        res.itxn_groups = [[dict(t) for t in g] for g in self.world.itxn_groups] if res.verdict != "fail" else []
         res.blocks = self.blocks
         res.max_depth = self.max_depth
         res.uninit_loads = self.uninit_loads
